@@ -20,7 +20,7 @@ import (
 // C12 end to end: access rules and route authentication gate every HTTP request.
 func TestVerifC12HTTP(t *testing.T) {
 	L := ev.Begin("C12", "c12-http", "exploration",
-		"access rule {none, allow v4 block, deny v4 block, allow v6 block, allow with malformed item, allow+deny, allow and deny with one malformed item next to a well-formed one} x auth scheme {none, known basic, unknown} x configured scheme map {one scheme, empty, nil} x peer (4) x X-Forwarded-For (none/inside/outside) x credentials {none, good, bad password, unknown user, malformed basic header, other scheme} x {proxied route, redirect route} x {GET, CORS preflight OPTIONS} through the real HTTPProxy.ServeHTTP with a real htpasswd file; oracle: 403 / 401 / 200 exactly as the statement prescribes and the upstream hit counter stays 0 unless admitted and authorised; plus one htpasswd history with refresh (user served, removed from the file, reload observed, old credentials refused). non-trivial = case with a rule or an auth scheme")
+		"access rule {none, allow v4 block, deny v4 block, allow v6 block, allow with malformed item, allow+deny, allow and deny with one malformed item next to a well-formed one} x auth scheme {none, known basic, unknown} x configured scheme map {one scheme, empty, nil} x peer (4) x X-Forwarded-For (none/inside/outside) x credentials {none, good, bad password, unknown user, malformed basic header, other scheme} x {proxied route, redirect route} x {GET, CORS preflight OPTIONS} through the real HTTPProxy.ServeHTTP with a real htpasswd file; oracle: 403 / 401 / 200 exactly as the statement prescribes and the upstream hit counter stays 0 unless admitted and authorised; plus one htpasswd history with refresh (user served, removed from the file, reload observed, old credentials refused; then the file replaced by one with an OLDER modification time and another user removed: refused within 400 refresh intervals). non-trivial = case with a rule or an auth scheme")
 	dir, err := os.MkdirTemp("", "c12")
 	if err != nil {
 		panic(err)
@@ -242,6 +242,26 @@ func TestVerifC12HTTP(t *testing.T) {
 			} else if code, hits := try("alice", "s3cret"); code != 401 || hits != 0 {
 				d["status_for_the_revoked_credentials"], d["upstream_hits"] = code, hits
 				L.Violation("revoked-credentials-still-accepted-after-reload", d)
+			} else {
+				// third state of the file: put back from a backup that keeps its OLD modification time (cp -p, rsync -t, a
+				// rollback): bob is gone, carol is in. The reload of step two has shown that this scheme follows the file
+				// within a few intervals; 400 intervals (20 s) later bob's credentials must be refused.
+				L.Case()
+				L.NontrivialKey("htpasswd-rollback")
+				os.WriteFile(hp2, []byte(line("carol", "pa55")), 0o600)
+				past := time.Now().Add(-time.Hour)
+				os.Chtimes(hp2, past, past)
+				d["history"] = append(d["history"].([]string), "file replaced by one with an older modification time: bob removed, carol added", "bob:hunter2 again")
+				gone := false
+				for deadline := time.Now().Add(20 * time.Second); time.Now().Before(deadline); time.Sleep(20 * time.Millisecond) {
+					if code, hits := try("bob", "hunter2"); code == 401 && hits == 0 {
+						gone = true
+						break
+					}
+				}
+				if !gone {
+					L.Violation("revoked-credentials-still-accepted-after-the-file-was-rolled-back", d)
+				}
 			}
 		}
 	}
